@@ -3,6 +3,7 @@
 package c08
 
 import (
+	"bytes"
 	"encoding/json"
 	"fmt"
 	"io"
@@ -137,16 +138,31 @@ func runEnc(c EncCase) (string, encStats) {
 	case 2, 3:
 		var exprs []string
 		var bexprs [][]byte
+		// the byte-slice sender is handed sub-slices that sit back to back in ONE scratch buffer (what a
+		// caller re-serialising a stored ad does): the sender may neither mix them up nor write to the buffer
+		var shared []byte
+		var cuts []int
 		for _, n := range names {
 			e, _ := ad.Lookup(n)
 			s := n + " = " + e.String()
 			exprs = append(exprs, s)
-			bexprs = append(bexprs, []byte(s))
+			shared = append(shared, s...)
+			cuts = append(cuts, len(shared))
+		}
+		shared = append(shared, "#tail-guard#"...)
+		pristine := append([]byte(nil), shared...)
+		prev := 0
+		for _, c := range cuts {
+			bexprs = append(bexprs, shared[prev:c])
+			prev = c
 		}
 		if c.Sender == 2 {
 			err = msg.PutClassAdRaw(kit.Bg, exprs, typeString(c.MyType), typeString(c.TgtType))
 		} else {
 			err = msg.PutClassAdRawBytes(kit.Bg, bexprs, typeString(c.MyType), typeString(c.TgtType))
+			if err == nil && !bytes.Equal(shared, pristine) {
+				return "PutClassAdRawBytes modified the caller's buffer: " + kit.FirstDiff(pristine, shared), st
+			}
 		}
 	}
 	if err != nil {
